@@ -16,6 +16,7 @@ import numpy as np
 
 import felupe as fem
 import felupe.tools._newton as _newton_mod
+from scipy.sparse import csr_matrix
 
 from .. import gen, jobsim, world
 from ..kernel import Discard, InjectedFault, Streams, Violation, close_exact_twin
@@ -113,7 +114,7 @@ class C01Monitor(jobsim.Monitor):
 
         def R(xv):
             fk.set_vector(xv)
-            return _newton_mod.fun_items(items, fk.field)
+            return world.ref_fun_items(fk, items)
 
         f0 = R(x)
         n = x.size
@@ -124,7 +125,7 @@ class C01Monitor(jobsim.Monitor):
         if not ok:
             self.V("cache-transparency", f"vector Newton summed at substep ({c['step']},{c['substep']}) iteration {c['iter']} differs from a cold re-assembly at the same durable state (rel {rel:.2e})", site="fun_items")
         if not self.has_ni:
-            Kc = _newton_mod.jac_items(items, fk.field).toarray()
+            Kc = world.ref_jac_items(fk, items)
             ok, rel = close_exact_twin(Kc, K.toarray(), atol=1e-11 * max(Kn, 1e-300))
             if not ok:
                 self.V("cache-transparency", f"matrix Newton summed differs from a cold re-assembly at the same durable state (rel {rel:.2e})", site="jac_items")
@@ -134,9 +135,9 @@ class C01Monitor(jobsim.Monitor):
         else:
             # settled state of the condensed (p, J): evaluate the residual twice at x, then the matrix
             fk.set_vector(x)
-            _newton_mod.fun_items(items, fk.field)
-            _newton_mod.fun_items(items, fk.field)
-            Kuse = _newton_mod.jac_items(items, fk.field).tocsr()
+            world.ref_fun_items(fk, items)
+            world.ref_fun_items(fk, items)
+            Kuse = csr_matrix(world.ref_jac_items(fk, items))
             label = "settled"
             self.log.count("settled-incompressible-checked")
         # symmetry of conservative items ---------------------------------------------------------
